@@ -153,6 +153,22 @@ def check_case(ctx, cs):
                 for a, b in corners:
                     if not vclose(a, b):
                         ctx.violate("fitting.approximate_surface", tg + ["corner_points"], small, {"got": a, "expected": b})
+        # explicitly chosen, smaller control point counts (still within degree + 2 ... points - 1) per direction: the four corners stay
+        for cu, cv in ((su - 1, sv - 2), (su - 2, sv - 1), (su - 2, sv - 2)):
+            if not (pu + 2 <= cu <= su - 1 and pv + 2 <= cv <= sv - 1) or (cu, cv) == (su - 1, sv - 1):
+                continue
+            t3 = tg + ["ctrlpts_size=%dx%d" % (cu, cv)]
+            ok, asf = _try(ctx, "fitting.approximate_surface", t3, small,
+                           lambda: fitting.approximate_surface([list(x) for x in pts], su, sv, pu, pv, ctrlpts_size_u=cu, ctrlpts_size_v=cv, centripetal=c["centr"]))
+            if ok:
+                AP = [list(x) for x in asf.ctrlpts]
+                if asf.ctrlpts_size_u != cu or asf.ctrlpts_size_v != cv or len(AP) != cu * cv:
+                    ctx.violate("fitting.approximate_surface", t3 + ["structure"], small, {"sizes": [asf.ctrlpts_size_u, asf.ctrlpts_size_v]})
+                    continue
+                for a, b in [(AP[0], pts[0]), (AP[cv - 1], pts[sv - 1]), (AP[cv * (cu - 1)], pts[sv * (su - 1)]), (AP[cv * cu - 1], pts[sv * su - 1])]:
+                    if not vclose(a, b):
+                        ctx.violate("fitting.approximate_surface", t3 + ["corner_points"], small, {"got": a, "expected": b})
+                        break
                         break
     else:
         raise core.MachineryError("unknown op")
